@@ -35,3 +35,16 @@ Definition purchase_decode_all (sch : schema) (depth : nat) (m : N) (data : byte
   | Some p => Some (parse_tree sch depth m p)
   | None => None
   end.
+
+(* compat.from_types_v1, signed legacy claims: claim.unsigned_payload is the v1 message with its
+   publisherSignature (top-level field 5) cleared and serialised again -- the bytes the legacy signature
+   was computed over. *)
+Definition V1_SIGNATURE_FIELD : N := 5.
+Definition drop_field (k : N) (fs : list field) : list field :=
+  filter (fun f : field => negb (N.eqb (fst f) k)) fs.
+Definition v1_unsigned_payload (data : bytes) : wres bytes :=
+  match wire_parse data with
+  | WOk fs => WOk (ser_fields (drop_field V1_SIGNATURE_FIELD fs))
+  | WErr => WErr
+  | WGroup => WGroup
+  end.
